@@ -10,7 +10,7 @@ for d in seeded/*/; do
   case "$out" in
     *"exit=1"*) echo "detected   $n: $out";;
     *"does not apply"*) echo "no-apply   $n";;
-    *) echo "MISSED     $n: $out"; bad=1;;
+    *) if grep -q '"expected": "shadowed"' "$d/meta.json"; then echo "shadowed   $n (see meta.json)"; else echo "MISSED     $n: $out"; bad=1; fi;;
   esac
 done
 exit $bad
